@@ -41,5 +41,9 @@ pub fn run(cx: &mut Cx) {
     cx.pin("nettable_task.rs", "ReadBuf::put_slice", "requires data@.len() <= old(self).room(),");
     cx.pin("nettable_task.rs", "Bytes::idiom_prefix", "pub fn idiom_prefix(&self, n: usize) -> (r: &[u8]) requires n <= self@.len(),");
     cx.pin("nettable_task.rs", "idiom_sum_lens", "requires queue_bytes(self.idiom_sl_seq()) <= usize::MAX,");
+    cx.pin("fs_torn.rs", "u64::div_ceil", "[u64::div_ceil] (a: u64, b: u64) -> (r: u64) requires b > 0");
+    cx.pin("fs_torn.rs", "idiom_random_range_incl", "pub fn idiom_random_range_incl(rng: &mut dyn RngCore, lo: usize, hi: usize) -> (r: usize) requires lo <= hi");
+    cx.pin("uring_ext.rs", "u32::next_power_of_two", "[u32::next_power_of_two] (x: u32) -> (r: u32) requires x <= 0x8000_0000u32,");
+    cx.pin("uring_ext.rs", "axiom_next_pow2", "pub broadcast axiom fn axiom_next_pow2(x: u32) requires x <= 0x8000_0000u32,");
     cx.pin("fs_vec.rs", "axiom_vec_imut_range", "requires r.start <= r.end <= pre.len()");
 }
